@@ -410,7 +410,7 @@ fn worker(ctx: &Ctx, out: &mut Out) {
                 Err(e) => out.inconclusive.push(format!("dump failed: {}", e)),
             }
         }
-        if out.samples.len() < 3 && case % 53 == 1 {
+        if out.samples.len() < 3 && (case % 53 == 1 || out.samples.is_empty()) {
             out.sample(json!({"case": case, "attacks": classes, "payload_heads": payloads.iter().map(|p| show(p)).collect::<Vec<_>>(), "control_commands_verified": verified}));
         }
         if dead.is_some() || !out.violations.is_empty() {
